@@ -9,6 +9,7 @@ import (
 	"hash/fnv"
 	"os"
 	"sort"
+	"strings"
 	"sync"
 	"time"
 )
@@ -234,7 +235,7 @@ var maxCounters = map[string]bool{"max_depth": true, "dev_bound_completed": true
 // Merge folds a shard result into r.
 func (r *Run) Merge(o *Run) {
 	for k, v := range o.Counters {
-		if maxCounters[k] {
+		if maxCounters[k] || strings.HasPrefix(k, "ms:") {
 			if v > r.Counters[k] {
 				r.Counters[k] = v
 			}
